@@ -284,6 +284,11 @@ func (r *semRun) client(id int, ops []semOp, spawn func(name string, f func())) 
 				}
 			} else {
 				r.probe("probe.acquire_ctx_error")
+				if err == context.DeadlineExceeded {
+					r.probe("fault.deadline_expired_in_acquire")
+				} else {
+					r.probe("fault.cancelled_in_acquire")
+				}
 			}
 			cancel()
 		case "try":
@@ -320,10 +325,12 @@ func (r *semRun) client(id int, ops []semOp, spawn func(name string, f func())) 
 		case "force":
 			call := r.stamp.Add(1)
 			r.sem.ForceAcquire(op.N)
+			r.probe("fault.forced_acquire")
 			r.record(id, semIn{"force", op.N}, call, semOut{})
 			held = append(held, op.N)
 		case "setsize":
 			rec := &setSizeRec{n: op.N}
+			r.probe("fault.resize")
 			r.mu.Lock()
 			r.setsizes = append(r.setsizes, rec)
 			r.mu.Unlock()
